@@ -7,6 +7,7 @@ mod c04;
 mod c04m;
 mod c04s;
 mod c06l;
+mod c07l;
 mod c09;
 mod c18l;
 mod c19;
@@ -25,6 +26,7 @@ fn main() {
     let report: Report = match args.property.as_str() {
         "C04" => c04::run(&args),
         "C06" => c06l::run(&args),
+        "C07" => c07l::run(&args),
         "C09" => c09::run(&args),
         "C18" => c18l::run(&args),
         "C19" => c19::run(&args),
